@@ -232,6 +232,9 @@ def run_c04(rep, tier):
         if e:
             kw['error'] = e
         calls.append(call('make', parts if k > 1 else parts[0], **kw))
+        if k > 1 and len(calls) % 2:
+            # the parts as a tuple / generator / iterator / map object: sized as the parts, not as the text of the container
+            calls.append(symobs.in_container(calls[-1], symobs.CONTAINERS[len(calls) % 4]))
     for n in (7089, 7090, 4296, 4297, 2953, 2954, 1817, 1818):
         mode = {7089: 'numeric', 7090: 'numeric', 4296: 'alphanumeric', 4297: 'alphanumeric', 2953: 'byte', 2954: 'byte', 1817: 'kanji', 1818: 'kanji'}[n]
         calls.append(call('make', gen.content_for_mode(r, mode, n)))
@@ -244,7 +247,15 @@ def run_c04(rep, tier):
                     for kw in ({}, {'error': 'L'}) if e != 'M' else ({},):
                         calls.append(call('make', gen.content_for_mode(r, mode, n), version=v, **kw))
     calls += gen.eci_boundary_calls(call, tier == 'quick')
-    calls += gen.multipart_boundary_calls(call, tier == 'quick')
+    mp_calls = gen.multipart_boundary_calls(call, tier == 'quick')
+    calls += mp_calls
+    calls += [symobs.in_container(c, symobs.CONTAINERS[i % 4]) for i, c in enumerate(mp_calls) if c['content']['t'] == 'list' and (tier == 'thorough' or i % 3 == 0)]
+    for kind in symobs.CONTAINERS:
+        # a numeric message in parts fits M1 / a long one needs version 33 / one that fits nothing overflows, whatever carries the parts
+        calls.append(symobs.in_container(call('make', ['123', '45']), kind))
+        calls.append(symobs.in_container(call('make', [gen.digits(r, 2000), gen.digits(r, 2000), gen.digits(r, 1500)]), kind))
+        calls.append(symobs.in_container(call('make', [gen.latin1(r, 2000), gen.latin1(r, 1000)]), kind))
+        calls.append(symobs.in_container(call('make', ['AB', 'CD'], micro=True), kind))
     obs = symobs.observe_many(calls, props=['C04'])
     # one process, in order: symbols of different kinds with the same capacity and the same stream length, alternately
     sess = gen.same_capacity_sessions(call, gen.rng(common.seed(), 'C04', 'session'), tier == 'quick')
@@ -320,6 +331,9 @@ def run_c05(rep, tier):
     for enc in ('latin1', 'L1', 'ISO-8859-1', 'utf-8', 'UTF8', 'iso-8859-15'):
         for n in range(5, 18):
             calls.append(call('make', 'ä' * n if enc not in ('utf-8', 'UTF8') else 'ä' * (n // 2), encoding=enc, eci=True, micro=False))
+    # pairs / triples of active options, and an ECI header with boosting on at every length
+    calls += gen.option_combination_calls(call)
+    calls += [c for c in gen.eci_boundary_calls(call, True) if 'boost_error' not in c['kw'] and 'version' not in c['kw']]
     obs = symobs.observe_many(calls, props=['C05'])
     # one process, in order: symbols of different kinds with the same capacity and the same stream length, alternately
     sess = gen.same_capacity_sessions(call, gen.rng(common.seed(), 'C05', 'session'), tier == 'quick')
